@@ -277,6 +277,9 @@ pub enum Step {
     Reopen,
     FlushWal { sync: bool },
     AdvanceClock { dt: u32 },
+    /// Restrict the keys chosen by subsequent writes to a window of the pool (disjoint key-range phases produce
+    /// several non-overlapping tables on deeper levels). Purely a generator device: reads are unaffected.
+    KeyWindow { lo: u16, len: u16 },
     // ---- checkpoints ----
     Checkpoint { n: u8 },
     Restore { n: u8 },
@@ -300,6 +303,19 @@ impl Case {
     pub fn key(&self, k: K) -> &[u8] {
         let i = (k as usize * self.pool.len()) >> 16;
         &self.pool[i]
+    }
+    /// Key for a write under a key window (lo, len) given as fractions of the pool.
+    pub fn wkey(&self, k: K, win: Option<(u16, u16)>) -> &[u8] {
+        match win {
+            None => self.key(k),
+            Some((lo, len)) => {
+                let n = self.pool.len();
+                let start = (lo as usize * n) >> 16;
+                let width = (((len as usize).max(1) * n) >> 16).max(1).min(n - start);
+                let i = start + ((k as usize * width) >> 16);
+                &self.pool[i.min(n - 1)]
+            }
+        }
     }
     pub fn bound(&self, b: B) -> Option<Vec<u8>> {
         match b {
